@@ -73,7 +73,7 @@ SolveStop(s) == /\ Running(s) /\ sv[s].pc = "solve" /\ Stop(sv[s]) /\ sv' = Set(
                 /\ stack' = Pop /\ UNCHANGED ncalls /\ actor' = s /\ Quiet
 Begin(s)     == /\ Running(s) /\ sv[s].pc = "dgi" /\ sv[s].left > 0
                 /\ IF sv[s].first THEN sv' = Set(s, BeginFirst(sv[s]))
-                   ELSE \E s1 \in {Recalced(sv[s])} : \E e \in MaxEntries(s1.queue) : sv' = Set(s, BeginIter(s1, e))
+                   ELSE \E s1 \in {Refilled(Recalced(sv[s]))} : \E e \in MaxEntries(s1.queue) : sv' = Set(s, BeginIter(s1, e))
                 /\ UNCHANGED <<stack, ncalls>> /\ actor' = s /\ Quiet
 (* the objective returns z: the value is written into the new item's holder (Problem.Calculate stores it in the *)
 (* holder it was given), the item keeps a private copy (SetZ), and UpdateOptimum stores the best item into      *)
